@@ -19,6 +19,7 @@ from ..builder import Emit, emits
 from ..model import AnalysisError, Model
 from ..paths import Path, PathEnumerator
 from ..report import Report
+import ast as ast
 from ..sym import FALSE, NONE, TRUE, Evaluator, Frame, Term, as_lin, atoms_of, lin, number, show, subst, subterms, sym, t_add, t_scale
 from .c09 import CC, REGIONS, TAIL, p1, qec_paths, region_path, reps_of, sub_circuits
 from .c12 import K, KernelCase, ONE, ZERO, resolve_max, x1, x2, x3, x4
@@ -49,6 +50,8 @@ def check(model: Model, rep: Report, tier: str):
     from .c07 import a9
     with rep.isolated():
         a9(model, rep, "C13.M6")
+    with rep.isolated():
+        m10(model, rep)
     from .c06 import u4 as _u4
     with rep.isolated():
         share_rule(rep, model, _u4, "C13.M9", "every round circuit is unrolled before it is flattened: DeclarativeCircuit.apply_modifiers unrolls the structure it holds at every "
@@ -155,6 +158,9 @@ def m1(model: Model, rep: Report):
     kq = KernelCase(model, Q, True, None, "data", None, None, "involved_qubit_ids")
     qlen = kq.value("kernel_length")
     count = lin({}, Fraction(n_states * (per_state or 0)))
+    if number(qlen) is None:
+        # the kernel length depends on fields the rule does not fix (inherited repetitions / f_state): not read, not wrong
+        raise AnalysisError(f"QutritCalibrationIndexKernel.kernel_length: {show(qlen)[:140]} is not a number for heralded initialisation; not read")
     rep.check(qlen == count, "C13.M1", "calibration acquisitions per qubit vs calibration kernel length", d.loc, found=f"circuit: {n_states} states x {per_state} = {show(count)}; kernel_length: {show(qlen)}", required="equal (6 with heralded initialisation)",
               what="the calibration block and the calibration kernel disagree on the number of acquisitions per qubit", detail="cal-length")
     # QUTRIT includes all three states
@@ -211,3 +217,47 @@ def m2(model: Model, rep: Report):
 
 def _same_qubits(t: Optional[Term], desc: Term) -> bool:
     return t is not None and "qubit_indices" in show(devar(t)) or (t is not None and subterms(devar(t), lambda y: y == desc) != [])
+
+
+def m10(model: Model, rep: Report):
+    rep.rule("C13.M10", "the calibration block is put on the channels the experiment blocks use: a description's circuit_channel_map is keyed by "
+                        "map_qubit_id_to_circuit_index(q) for every q of qubit_ids (the index space of every other builder), not by the position of q in a list; the multi-round "
+                        "constructor derives the calibration description's index map from it")
+    C = model.cls("IRepetitionCodeDescription")
+    f = C.resolve("circuit_channel_map")
+    if f is None:
+        raise AnalysisError("IRepetitionCodeDescription.circuit_channel_map not found")
+    ev = Evaluator(model, inline_methods=False)
+    s = sym(f.self_name or "self")
+    ev.set_type(s, C)
+    v = devar(ev.attr(s, "circuit_channel_map", Frame(f, f.module, {}, C, 0)))
+    construct = "IRepetitionCodeDescription.circuit_channel_map"
+    if v[0] != "dictcomp" or len(v[3]) != 1:
+        raise AnalysisError(f"{construct}: {show(v)[:140]} is not one mapping over the qubits; not read")
+    key, val, gens = v[1], v[2], v[3]
+    dom, conds = gens[0]
+    positional = any(x[0] == "call" and x[1] in ("enumerate", "range") for x in subterms(dom, lambda t: t[0] == "call")) or \
+        any(x[0] == "call" and isinstance(x[1], tuple) and x[1][0] == "attr" and x[1][2] == "index" for x in subterms(key, lambda t: t[0] == "call"))
+    mapped = key[0] == "call" and isinstance(key[1], tuple) and key[1][0] == "attr" and key[1][1] == s and key[1][2] == "map_qubit_id_to_circuit_index"
+    if mapped:
+        args = list(key[2]) + [a for _, a in key[3]]
+        ok = dom == ("attr", s, "qubit_ids") and not conds and args == [val] and val[0] == "bound"
+    elif positional:
+        ok = False
+    else:
+        raise AnalysisError(f"{construct}: key {show(key)[:120]} is neither map_qubit_id_to_circuit_index(q) nor a list position; not read")
+    rep.check(ok, "C13.M10", construct, f.loc, found=show(v), required="{self.map_qubit_id_to_circuit_index(q): q for q in self.qubit_ids}",
+              what="the channel map is keyed by the position of a qubit in a list (or covers other qubits), not by its circuit index: for a description whose channels are not "
+                   "0..n-1 in listing order the calibration block lands on other channels than the experiment blocks and the kernels' calibration indices describe acquisitions "
+                   "that are not there", detail="channel-map")
+    cands = [fn for fn in model.all_functions() if fn.name == "construct_repetition_code_multi_round_circuit"]
+    g = cands[0] if cands else None
+    if g is None:
+        raise AnalysisError("construct_repetition_code_multi_round_circuit not found")
+    uses = any(isinstance(n, ast.Attribute) and n.attr in ("circuit_channel_map", "map_qubit_id_to_circuit_index") for n in ast.walk(g.node))
+    calib = [c for c in ast.walk(g.node) if isinstance(c, ast.Call) and isinstance(c.func, ast.Name) and c.func.id == "CalibrationDescription"]
+    if not calib:
+        raise AnalysisError("construct_repetition_code_multi_round_circuit: CalibrationDescription(..) not found")
+    rep.check(uses, "C13.M10", "construct_repetition_code_multi_round_circuit[calibration channels]", g.loc, found="index map of the calibration description built without the description's map",
+              required="built from description.circuit_channel_map / map_qubit_id_to_circuit_index", what="the calibration block does not use the experiment's channel numbering",
+              detail="calibration-map")
